@@ -950,7 +950,24 @@ func ruleC03Handlers(w *World, r *Report) {
 			if !found || len(cs) != 1 || cs[0] != accepted {
 				continue
 			}
-			miss := mustPass(h, nil, func(i ssa.Instruction) bool { return i == ssa.Instruction(c) }, isPut)
+			// "accepted" is the moment the reply is handed out, not the moment it is built: when the handler
+			// returns the constructed message itself (no φ in between, which would merge it with other replies),
+			// the store has to precede that return; building the message before PutSession commits nothing
+			var exit ssa.Instruction = c
+			if len(t.chain) == 0 && t.ret != nil && len(t.ret.Results) > 0 {
+				v := t.ret.Results[0]
+				for k := 0; k < 4; k++ {
+					if mi, ok := v.(*ssa.MakeInterface); ok {
+						v = mi.X
+					} else if ci, ok := v.(*ssa.ChangeInterface); ok {
+						v = ci.X
+					}
+				}
+				if v == ssa.Value(c) {
+					exit = t.ret
+				}
+			}
+			miss := mustPass(h, nil, func(i ssa.Instruction) bool { return i == exit }, isPut)
 			r.check(miss == nil, "R03.6", hn, "accepted only after the session was stored", w.Pos(c.Pos()), "PutSession on every path", "a request can be accepted without storing the session's rules (later deletes use stale keys)")
 			// every datapath write's rejected result leads away from the accepted exit
 			for k, wcall := range datapathCalls(h, "SendMsgToUPF") {
